@@ -136,8 +136,14 @@ fn components(
     glyph
         .sources()
         .iter()
-        .flat_map(|(loc, inst)| inst.components.iter().map(|c| (loc.clone(), c)))
-        .enumerate()
+        // the index tells repeated identical components of one instance apart; count per
+        // instance, not along the (hash-ordered) walk over all sources
+        .flat_map(|(loc, inst)| {
+            inst.components
+                .iter()
+                .enumerate()
+                .map(|(index, c)| (index, (loc.clone(), c)))
+        })
         .map(|(index, (loc, component))| {
             let coeffs = (transform * component.transform).as_coeffs();
             let mut transform = [OrderedFloat(0f64); 6];
